@@ -175,6 +175,27 @@ def run_server(msgs, segs_per_msg):
     return obs
 
 
+def run_server2(dA, dB, cutA, cutB, order):
+    """two connections to the same HTTP component, each request cut in two reads, the four reads interleaved in `order`
+    (a string over 'A','B': which connection's next segment is delivered); returns the per-connection observations"""
+    w = hh.HttpWorld(controllers=(Echo(),), dispatcher=False)
+    try:
+        socks = {'A': w.new_sock(), 'B': w.new_sock()}
+        segs = {'A': [dA[:cutA], dA[cutA:]], 'B': [dB[:cutB], dB[cutB:]]}
+        for who in order:
+            sock = socks[who]
+            if segs[who] and sock not in w.closed:
+                w.feed(sock, segs[who].pop(0))
+        out = []
+        for who in 'AB':
+            sock = socks[who]
+            out.append((tuple(r[1:] for r in w.requests if r[0] is sock), hh.strip_dates(w.written[sock]), sock in w.closed))
+        out.append((tuple(w.exceptions), w.crashed))
+    finally:
+        w.cleanup()
+    return tuple(out)
+
+
 def effect(base, got):
     if got[4]:
         return 'loop-crashed'
@@ -255,6 +276,32 @@ def _work_server(part, nparts, payload):
                     st.fail('server:keepalive-%s:%s:%s' % ('first' if which == 0 else 'second', where, effect(base, got)),
                             'keep-alive %r then %r, request %d cut at %r: %d request event(s) vs %d' % (m1[0], m2[0], which + 1, cs[1] or cs[0], len(got[0]), len(base[0])),
                             {'side': 'server-keepalive', 'messages': [m1[0], m2[0]], 'which': which, 'cuts': list(cs[1]) if cs[0] == 'cuts' else cs[0]})
+    # two connections: each request cut in two, the reads interleaved - per-connection parser state must not mix
+    two = [m for m in msgs if ' 1.1 ' in m[0] and ' host ' in m[0] and (tier != 'quick' or '/p?' in m[0])]
+    pi = -1
+    for mA in two:
+        for mB in two:
+            pi += 1
+            if pi % nparts != part:
+                continue
+            dA, dB = flat(mA[1]), flat(mB[1])
+            baseA, baseB = run_server([mA[0]], [[dA]]), run_server([mB[0]], [[dB]])
+            want = (baseA[:3], baseB[:3], (baseA[3], baseA[4]))
+            cutsA = sorted(p for p in boundary_positions(mA[1]) if 0 < p < len(dA))[::2]
+            cutsB = sorted(p for p in boundary_positions(mB[1]) if 0 < p < len(dB))[1::3]
+            for ca in cutsA:
+                for cb in cutsB:
+                    for order in ('ABAB', 'ABBA'):
+                        got = run_server2(dA, dB, ca, cb, order)
+                        st.executions += 1
+                        st.counters['server_two_connection_deliveries'] += 1
+                        st.interesting((mA[0], mB[0], ca, cb, order))
+                        st.outcome(('two', mA[0], mB[0], got[0][0], got[1][0]))
+                        if got != want:
+                            st.fail('server:two-connections:%s' % ('crash' if got[2][1] else 'differs'),
+                                    'connections A (%r cut at %d) and B (%r cut at %d), reads in order %s: per-connection outcome %r; each alone in one piece %r'
+                                    % (mA[0], ca, mB[0], cb, order, [g[0] for g in got[:2]], [b[0] for b in want[:2]]),
+                                    {'side': 'server-two', 'messages': [mA[0], mB[0]], 'cuts': [ca, cb], 'order': order})
     return st
 
 
@@ -357,6 +404,11 @@ def replay(wj):
         data = flat(parts)
         base = run_server([wj['message']], [[data]])
         got = run_server([wj['message']], [segments(data, _cs(wj['cuts']))])
+    elif wj['side'] == 'server-two':
+        dA, dB = [flat(reqs[m]) for m in wj['messages']]
+        bA, bB = run_server([wj['messages'][0]], [[dA]]), run_server([wj['messages'][1]], [[dB]])
+        base = (bA[:3], bB[:3], (bA[3], bA[4]))
+        got = run_server2(dA, dB, wj['cuts'][0], wj['cuts'][1], wj['order'])
     elif wj['side'] == 'server-keepalive':
         ds = [flat(reqs[m]) for m in wj['messages']]
         base = run_server(wj['messages'], [[d] for d in ds])
